@@ -162,7 +162,12 @@ func (m *meter) work() []workRow {
 		for j := i + 1; j < len(m.rows); j++ {
 			n := m.rows[j]
 			if n.Depth == 1 {
-				if n.Gas <= r.Gas {
+				if n.Err && n.PC == r.PC && n.Op == r.Op {
+					// the fault record of this very instruction: it was charged (memory expansion
+					// included), did its work and then failed. What it was charged is the least an
+					// attacker pays for that work (the failure forfeits the rest of the frame's gas too)
+					out = append(out, workRow{Op: r.Op, PC: r.PC, Consumed: r.Cost, Reads: n.Reads - r.Reads, Alloc: n.Alloc - r.Alloc})
+				} else if n.Gas <= r.Gas {
 					out = append(out, workRow{Op: r.Op, PC: r.PC, Consumed: r.Gas - n.Gas, Reads: n.Reads - r.Reads, Alloc: n.Alloc - r.Alloc})
 				}
 				break
